@@ -3939,16 +3939,19 @@ class Bind_Stmt(StmtBase):  # R522
 
     @staticmethod
     def match(string):
-        i = string.find("::")
+        # Hide the content of the parentheses (and of the NAME= string)
+        # while looking for the end of the language-binding-spec.
+        line, repmap = string_replace_map(string)
+        i = line.find("::")
         if i == -1:
-            i = string.find(")")
+            i = line.find(")")
             if i == -1:
                 return
-            lhs, rhs = string[:i], string[i + 1 :]
+            lhs, rhs = line[: i + 1], line[i + 1 :]
         else:
-            lhs, rhs = string.split("::", 1)
-        lhs = lhs.rstrip()
-        rhs = rhs.lstrip()
+            lhs, rhs = line[:i], line[i + 2 :]
+        lhs = repmap(lhs.rstrip())
+        rhs = repmap(rhs.lstrip())
         if not lhs or not rhs:
             return
         return Language_Binding_Spec(lhs), Bind_Entity_List(rhs)
